@@ -227,7 +227,19 @@ func panicSite() string {
 }
 
 // report turns a panic / hang into an oracle failure with a narrow clause.
-func report(ctx *core.Ctx, o outcome, clause string, what string) {
+// octx is what a step needs from *core.Ctx (the child process of the chunkinfo probe passes a sink that
+// drops everything: only "did the process survive" counts there).
+type octx interface {
+	Annotate(tokens ...string)
+	Fail(clause, format string, a ...interface{})
+}
+
+type nullCtx struct{}
+
+func (nullCtx) Annotate(...string)                  {}
+func (nullCtx) Fail(string, string, ...interface{}) {}
+
+func report(ctx octx, o outcome, clause string, what string) {
 	switch o.class {
 	case "panic":
 		ctx.Fail(clause, "%s: panic %q in %s", what, trunc(o.pmsg, 120), o.site)
